@@ -9,7 +9,7 @@ RULE = ('generated ledgers (multi-currency, dated lots at cost, sales reducing l
         'filters, groupings): (a) sum(position) of every group vs the model inventory sum of the group\'s positions, units(sum) '
         'and cost(sum) vs the model reducers; (b) on the implementation: f(sum(position)) == sum(f(position)) for f in units, cost, '
         'value, convert, and group sums adding up to the total; (c) the balance column referenced 0..3 times in the targets and in '
-        'WHERE, compared row by row with the model scan, last balance == sum(position).  Non-trivial = selection has at least two '
+        'WHERE, compared row by row with the model scan, last balance == sum(position); (d) LIMIT on grouped sums, BALANCES [AT f] WHERE ... against the grouped sums; lots at zero cost in every ledger.  Non-trivial = selection has at least two '
         'postings; distinct = distinct protocol line.')
 ASSUMPTIONS = ['exact arithmetic: coefficients within 28 digits (no Decimal rounding in sums / products)',
                'value() / convert() use Beancount\'s price map (opaque): checked as homomorphism identities on the implementation only']
